@@ -13,7 +13,8 @@ So `tokenize (A ++ B)` = the tokens of `A` (without `End`) followed by the token
 Without `CleanEnd` the statement is false: a text that ends inside a comment or a string swallows the beginning of `B`
 (examples in `Props/C18Defs.lean`).
 -/
-namespace Sqlgrep.Lex
+namespace Sqlgrep.Lex.Concat
+open Sqlgrep.Lex
 
 /-- two states of the fold over the same characters: `a` started behind the tokens `… ;` (`base`, last first, below the
 `;`) of an earlier text, `b` started from scratch; they agree on everything but positions -/
@@ -271,7 +272,7 @@ theorem body_eq (o : Oracles) (st : St) (c : Char) :
 
 theorem Rel.bodyCore (o : Oracles) (h : Rel base a b) (adj : Bool) (c : Char) :
     Rel base (bodyCore o adj a c) (bodyCore o adj b c) := by
-  unfold Lex.bodyCore
+  unfold Sqlgrep.Lex.Concat.bodyCore
   by_cases hcm : b.com = true
   · have hca : a.com = true := h.com.trans hcm
     rw [if_pos hca, if_pos hcm]
@@ -424,4 +425,4 @@ theorem tokenize_append (o : Oracles) (A B : List Char) (st : St) (h : CleanEnd 
   · subst hfin; exact ⟨_, rfl⟩
   · subst hfin; rfl
 
-end Sqlgrep.Lex
+end Sqlgrep.Lex.Concat
